@@ -22,7 +22,7 @@ CHUNK = 4
 
 def bounds(tier):
     return dict(tier=tier, schemas=len(_schemas(tier)), pool=len(foreign.POOL), encodings_per_schema=2 if tier == "quick" else 4,
-                entry_points=["codec", "mixin (depth<=1)"], max_positions=40)
+                entry_points=["codec", "mixin (depth<=1)", "from_dict of a holder built on the orjson / msgpack mixin (depth<=1)"], max_positions=40)
 
 
 def _schemas(tier):
@@ -89,6 +89,16 @@ def run_case(unit, only=None):
                               dict(desc=d, tier=tier, entry=ep, label=None), repr(r[1]))
                 continue
             fns[ep] = r[1].decode
+        if space.depth(d) <= 1:
+            # the plain from_dict of a class built on a format mixin (which also compiles a decoder for its format's dialect)
+            for fmt in ("orjson", "msgpack"):
+                r = e1.outcome(_format_holder_from_dict, fmt, h, ctx)
+                res.transitions += 1
+                if r[0] == "exc":
+                    res.violation(f"build-failed|{space.show(d)}|fmixin-{fmt}", "build-failed", e1.exc_class(r[1]),
+                                  dict(desc=d, tier=tier, entry=f"fmixin-{fmt}", label=None), repr(r[1]))
+                    continue
+                fns[f"fmixin-{fmt}"] = r[1]
         for label, x in foreign.mutations(encs):
             for ep, fn in fns.items():
                 if only is not None and (ep, label) != only:
@@ -115,6 +125,16 @@ def run_case(unit, only=None):
                         res.sample(dict(schema=space.show(d), input=repr(x)[:100], result=repr(exp[1])[:100]))
     res.states += 1
     return res
+
+
+def _format_holder_from_dict(fmt, h, ctx):
+    from vmc import formats
+    Mixin, _, _ = formats.mixin(fmt)
+    hn = ctx.inject(h, "_h")
+    n = ctx.fresh("FW")
+    ctx.ns["_FB"] = Mixin
+    W = ctx.execute(n, f"@dataclass\nclass {n}(_FB):\n    x: {hn}\n")
+    return lambda x: W.from_dict({"x": x}).x
 
 
 def _alt_reproduces(d, x, ctx, r, **alt):
